@@ -30,6 +30,8 @@ type cs struct {
 	Slow   []int `json:"slow,omitempty"` // parties whose threads run only when nothing else can (baseline speeds)
 	Fast   []int `json:"fast,omitempty"` // parties whose threads run before everybody else's
 	Prefix []int `json:"prefix,omitempty"`
+	// U: unbounded exploration with sleep sets (every Mazurkiewicz trace and every accept order)
+	U bool `json:"unbounded,omitempty"`
 }
 
 // options gives the scheduler options of a case: baseline "speeds" change the
@@ -246,7 +248,13 @@ func runCaseSharded(ctx *runner.Ctx, k cs, shard, nshards int) {
 	x := &csched.Explorer{PBound: k.P, EBound: k.E, FBound: k.F, Shard: shard, NShards: nshards,
 		Opts: options(k), Stop: ctx.Expired}
 	var w *world
-	x.Explore(func() {
+	explore := x.Explore
+	if k.U {
+		explore = func(system func(), visit func(r *csched.Result, p, e int) bool) {
+			x.ExploreUnbounded(system, func(r *csched.Result) bool { return visit(r, -1, -1) })
+		}
+	}
+	explore(func() {
 		w = &world{}
 		system(k, w)()
 	}, func(r *csched.Result, p, e int) bool {
@@ -264,11 +272,25 @@ func runCaseSharded(ctx *runner.Ctx, k cs, shard, nshards int) {
 			report(ctx, kk, kind, fmt.Sprintf("%s [preemptions=%d accept-order deviations=%d]", what, p, e), r)
 			return false
 		}
-		ctx.Outcome(fmt.Sprintf("mesh-ok/n=%d,c=%d", k.N, k.C))
+		if k.U {
+			ctx.Outcome(fmt.Sprintf("mesh-ok/unbounded/n=%d,c=%d", k.N, k.C))
+		} else {
+			ctx.Outcome(fmt.Sprintf("mesh-ok/n=%d,c=%d", k.N, k.C))
+		}
 		return true
 	})
 	if ctx.Replay {
-		fmt.Fprintf(os.Stderr, "n=%d c=%d P=%d E=%d F=%d: %d executions, %d transitions, max points %d truncated=%v\n", k.N, k.C, k.P, k.E, k.F, x.Executions, x.Transitions, x.MaxPoints, x.Truncated)
+		fmt.Fprintf(os.Stderr, "n=%d c=%d P=%d E=%d F=%d U=%v: %d executions, %d sleep-blocked, %d transitions, max points %d truncated=%v\n", k.N, k.C, k.P, k.E, k.F, k.U, x.Executions, x.SleepBlocked, x.Transitions, x.MaxPoints, x.Truncated)
+	}
+	if k.U {
+		if shard == 0 {
+			ctx.Count("unbounded_systems", 1)
+		}
+		ctx.Count("unbounded_executions", x.Executions)
+		ctx.Count("unbounded_sleep_blocked", x.SleepBlocked)
+		if x.Truncated {
+			ctx.Count("unbounded_systems_cut", 1)
+		}
 	}
 	ctx.Count("executions", x.Executions)
 	ctx.Count("transitions", x.Transitions)
